@@ -383,8 +383,14 @@ def run(tier, seed):
             as_model = False
             via_alt = False
             for k, mo in enumerate(models):
-                if mo["k"] == "any":
-                    hit = bool(r["fn"]) and cobs[0] == "ret" and cobs[1] == [L.TYPES[x][1] for x in [r["fn"][p - 1] for p in L.params(d)]]
+                if mo["k"] == "any" and k == 0 and r["fn"]:
+                    # the modelled dispatcher runs specialisation fn; its argument conversions carry no single demand
+                    # (r["convs"]): returning from fn, or raising what one of the conversions raises, is "as modelled"
+                    fn_ty = [L.TYPES[x][1] for x in [r["fn"][p - 1] for p in L.params(d)]]
+                    hit = (cobs[0] == "ret" and cobs[1] == fn_ty) or \
+                          (cobs[0] == "exc" and (cobs[1] in r["convs"] or "nodemand" in r["convs"]))
+                elif mo["k"] == "any":
+                    hit = False
                 else:
                     hit = accepts(mo, cobs, pvals)
                 if hit:
